@@ -969,7 +969,11 @@ impl ErasedNode for Node {
         } else if !self.is_necessary() {
             NodeUpdateDelayed::Unnecessary
         } else {
-            match self.value_as_any().is_some() {
+            // stabilisation_num has already been bumped by stabilise_end
+            let changed_this_stabilisation = self
+                .state_opt()
+                .map_or(false, |t| self.changed_at.get().add1() == t.stabilisation_num.get());
+            match self.value_as_any().is_some() && changed_this_stabilisation {
                 true => NodeUpdateDelayed::Changed,
                 false => NodeUpdateDelayed::Necessary,
             }
